@@ -41,8 +41,22 @@ def gen_pool(json_path, module, name='Docs'):
     return '\n'.join(lines) + '\n'
 
 
+def gen_alphabets(path):
+    A = json.load(open(path))
+    lines = ['\\* GENERATED from %s by lib/tlagen.py' % os.path.basename(path), '---- MODULE Alphabets ----',
+             '\\* lexeme alphabets for the exhaustive string enumerations of property C04 (code point sequences)']
+    for name, syms in A.items():
+        lines.append('Alpha%s == <<%s>>' % (name, ', '.join(seq(map(str, x)) for x in syms)))
+    lines.append('====')
+    return '\n'.join(lines) + '\n'
+
+
 def main():
     spec = os.path.join(os.path.dirname(os.path.abspath(__file__)), '..', 'spec')
+    out = gen_alphabets(os.path.join(spec, 'pools', 'Alphabets.alph'))
+    dst = os.path.join(spec, 'Alphabets.tla')
+    if not os.path.exists(dst) or open(dst).read() != out:
+        open(dst, 'w').write(out)
     for f in sorted(os.listdir(os.path.join(spec, 'pools'))):
         if f.endswith('.json'):
             module = 'Docs' + f[:-5]
